@@ -112,7 +112,10 @@ PROP = dict(
          "{1023..1026, 2047..2050, 4095..4100, 5000, random 1500..5200}, partitions that cut edges at and around rows 1022..1025, "
          "2047..2049, 4095, 4096 (alternating, single cut at a boundary, boundary rows only, blocks of 512/1000/1024/1025, random "
          "windows around the boundaries); "
-         "1..6 parts, 6 partition shapes, pools of 1..16 threads "
+         "number of parts in every stream: 60% 1..6, 30% largest id in {7,8,15,16,31,32,33,63,64,65,127,128,129,255,256}, 10% random "
+         "7..300 (many empty parts); with many parts the extreme ids k-1, 0, k-2 are forced onto consecutive vertices (they meet "
+         "on paths, rings, lattices) or only the top ids are used; one part per vertex on paths/rings with n in {8,9,16,17,32..34,"
+         "64..66,128..130,200} and one part per cell on grids; 6 partition shapes, pools of 1..16 threads "
          "(case index mod 16 + 1); a rare separate stream outside the contract (short/long partition or weight arrays, part id out "
          "of range, zero parts); distinct = distinct (kind, graph or sizes, partition, weights); non-trivial = in contract, at "
          "least one edge / two cells / two elements, and at least two parts in use",
